@@ -251,3 +251,118 @@ def resolve_simple(proj, ci, fi, expr: ast.AST, depth: int = 0) -> ast.AST:
 
                 return resolve_simple(proj, ci, fi, S().visit(copy.deepcopy(body[0].value)), depth + 1)
     return expr
+
+
+def response_fields_immutable(chk: Check, R: str, consequence: str) -> None:
+    """The response object is a plain carrier: what a handler (or the client's
+    parser) put into status / meta / body is what every later reader gets.  A
+    method of the class - __post_init__ included - that stores anything but the
+    field itself (or a byte-preserving conversion of it) rewrites every
+    response in the program, before the sink and the relay see it."""
+    from ..cfg import build_cfg as _build
+    from ..flow import Defs, _Sel, origins
+
+    chk.rule(R, "GeminiResponse carries status, meta and body exactly as constructed: no method of the class stores anything but the field itself (or bytes()/int()/str()/UTF-8 encode of it) into them")
+    ci = chk.proj.cls("protocol.response:GeminiResponse")
+    fields = ("status", "meta", "body")
+
+    def identity(e: ast.AST, fld: str) -> bool:
+        while True:
+            if isinstance(e, ast.Call) and dotted(e.func) in ("bytes", "int", "str") and len(e.args) == 1 and not e.keywords:
+                e = e.args[0]
+            elif isinstance(e, ast.Call) and method_call(e) and method_call(e)[1] == "encode" and fld == "body":
+                enc = e.args[0] if e.args else next((k.value for k in e.keywords if k.arg == "encoding"), None)
+                if enc is not None and not (isinstance(enc, ast.Constant) and str(enc.value).lower().replace("_", "-") in ("utf-8", "utf8")):
+                    return False
+                e = method_call(e)[0]
+            else:
+                break
+        return dotted(e) == f"self.{fld}"
+
+    n_methods = 0
+    n_stores = 0
+    ok = True
+    for m in ci.methods.values():
+        n_methods += 1
+        stores: list[tuple[str, ast.AST, ast.AST]] = []
+        for st in walk(m.node):
+            if isinstance(st, (ast.Assign, ast.AnnAssign, ast.AugAssign)):
+                tgts = st.targets if isinstance(st, ast.Assign) else [st.target]
+                for t in tgts:
+                    for tt in (t.elts if isinstance(t, (ast.Tuple, ast.List)) else [t]):
+                        if isinstance(tt, ast.Attribute) and dotted(tt.value) == "self" and tt.attr in fields:
+                            stores.append((tt.attr, st.value if not isinstance(st, ast.AugAssign) else st, st))
+                        elif isinstance(tt, ast.Subscript) and dotted(tt.value) == "self.__dict__" and isinstance(tt.slice, ast.Constant) and tt.slice.value in fields:
+                            stores.append((tt.slice.value, st.value, st))
+            elif isinstance(st, ast.Call):
+                d = dotted(st.func) or ""
+                if d.split(".")[-1] in ("__setattr__", "setattr") and len(st.args) >= 3 and dotted(st.args[0]) == "self" and isinstance(st.args[1], ast.Constant) and st.args[1].value in fields:
+                    stores.append((st.args[1].value, st.args[2], st))
+                elif d == "self.__dict__.update":
+                    for k in st.keywords:
+                        if k.arg in fields:
+                            stores.append((k.arg, k.value, st))
+        if not stores:
+            continue
+        g = _build(chk.proj, m)
+        defs = Defs(g)
+        for fld, val, st in stores:
+            n_stores += 1
+            node = next((x for x in g.nodes if x.ast is not None and any(y is st for y in ast.walk(x.ast))), None)
+            leaves = [(None, val)] if node is None or val is None or isinstance(val, ast.AugAssign) else origins(defs, node, val)
+            bad = [le for _n, le in leaves if isinstance(le, (_Sel, ast.AugAssign)) or not identity(le, fld)]
+            if bad:
+                ok = False
+                chk.finding(
+                    R, m.key, f"response-field-rewritten:{fld}",
+                    f"`{norm(st)[:80]}` stores `{norm(bad[0])[:70] if not isinstance(bad[0], _Sel) else repr(bad[0])}` into GeminiResponse.{fld}: every response object in the program - the one a handler returns and the one the client parsed - is rewritten before it is written or relayed, so {consequence}",
+                    m.loc(st),
+                )
+    chk.floor(R, "GeminiResponse methods inspected", n_methods, 1)
+    chk.ob(R, f"{ci.key}: no method rewrites status / meta / body", ok, f"{n_methods} methods, {n_stores} stores to the three fields", evals=n_methods)
+
+
+def absent_key_values(chk: Check, fi: FunctionInfo, key: str, ctor_names: tuple[str, ...], kw: str):
+    """Abstractly run ``fi`` (a from_dict / from_toml style constructor) for a
+    table in which ``key`` is absent and report the abstract values the
+    constructor keyword ``kw`` receives on every feasible path:
+    [(value, node)] - `d.get(key, D)` evaluates to D, `d.get(key)` to None,
+    `key in d` to false."""
+    from ..strdom import BoolV, Interp, NoneV
+
+    g = build_cfg(chk.proj, fi)
+    interp = Interp(chk.proj, fi)
+
+    def oracle(c):
+        mc = method_call(c)
+        if mc and mc[1] == "get" and c.args and isinstance(c.args[0], ast.Constant) and c.args[0].value == key:
+            return interp.eval(c.args[1], {}) if len(c.args) > 1 else NoneV()
+        return None
+
+    interp.call_oracle = oracle
+    _orig_cmp = interp._cmp
+
+    def cmp(t, st):
+        if len(t.ops) == 1 and isinstance(t.ops[0], (ast.In, ast.NotIn)) and isinstance(t.left, ast.Constant) and t.left.value == key:
+            return isinstance(t.ops[0], ast.NotIn)
+        return _orig_cmp(t, st)
+
+    interp._cmp = cmp
+
+    def watch(n):
+        if n.ast is None or n.kind != "stmt":
+            return []
+        out = []
+        for c in calls(n.ast):
+            if (dotted(c.func) or "").split(".")[-1] in ctor_names:
+                for k in c.keywords:
+                    if k.arg == kw:
+                        out.append(k.value)
+        return out
+
+    res = []
+    for _path, (_st, recs) in interp.run_paths(g, watch, max_paths=4000):
+        for node, vals, _s in recs:
+            for v in vals:
+                res.append((v, node))
+    return res
